@@ -93,7 +93,9 @@ fn serialize_range_mappings(sm: &SourceMap) -> Option<String> {
 
             let num = idx - idx_of_first_in_line - skipped_in_line;
 
-            rmi_data.resize(rmi_data.len() + 2, 0);
+            if rmi_data.len() * 8 <= num {
+                rmi_data.resize(num / 8 + 1, 0);
+            }
 
             let rmi_bits = rmi_data.view_bits_mut::<Lsb0>();
             rmi_bits.set(num, true);
